@@ -11,6 +11,7 @@ handshakes must exit 1 without any (kex)/(key)/(enc)/(mac) line; policy verdict 
 """
 import itertools
 import json
+import struct
 import os
 import tempfile
 
@@ -152,6 +153,31 @@ def run(ctx):
                     fail('complete_audit_bad_status', {'args': mode_args}, {'exit': code, 'stdout': out[:300]}, 'a report and status 0/2/3')
             lines.append('audit.end %s standard 0 %d 0' % (hs, code if hs == 'ok' else 0))
             expect.append(('end', {'status': code, 'algReport': bool(has_alg) if '-l' not in mode_args else (hs == 'ok')}, (hs, mode_args)))
+    # (b2) the same for an SSH-1 audit (-1, or the fallback after "Protocol major versions differ."): a public-key message that is well framed (length, padding,
+    # CRC) but cut short / empty / of another type never looks clean
+    from props.C10 import ssh1_frame
+    good_pkm = b'\x11' * 8 + struct.pack('>I', 768) + b'\x00\x11' + b'\x01\x00\x01' + b'\x03\x00' + bytes(range(1, 97)) + struct.pack('>I', 1024) + b'\x00\x11' + b'\x01\x00\x01' + b'\x04\x00' + bytes(range(1, 129)) + struct.pack('>III', 2, 0x48, 0x24)
+    s1faults = [('ok1', ssh1_frame(2, good_pkm))] + [('parseFailed', ssh1_frame(2, good_pkm[:k_])) for k_ in (0, 1, 7, 8, 11, 12, 40, len(good_pkm) - 9, len(good_pkm) - 1)] + \
+        [('wrongPacketType', ssh1_frame(3, good_pkm)), ('readError', ssh1_frame(2, good_pkm)[:30])]
+    for hs, raw in s1faults:
+        for mode_args in ([], ['-j'], ['-b'], ['-v']):
+            for how in ('dash-1', 'fallback'):
+                if how == 'dash-1':
+                    srv = fn.Server(banner=b'SSH-1.5-OpenSSH_3.9p1', raw_after_banner=raw, close_after_send=(hs != 'ok1'))
+                    argv = ['-n', '--skip-rate-test', '-1']
+                else:
+                    srv = fn.StagedServer([fn.Server(banner=b'SSH-1.99-OpenSSH_3.9p1', raw_after_banner=b'Protocol major versions differ.\n', close_after_send=True),
+                                           fn.Server(banner=b'SSH-1.5-OpenSSH_3.9p1', raw_after_banner=raw, close_after_send=(hs != 'ok1'))])
+                    argv = ['-n', '--skip-rate-test']
+                code, out = fn.run_main(argv + mode_args + ['10.0.0.7'], fn.FakeNet({'10.0.0.7': srv}))
+                cov.add(('ssh1-fault', hs, len(raw), tuple(mode_args), how), True, tags=['handshake-ssh1-' + hs])
+                has_alg = any(l.startswith(('(key) ', '(enc) ', '(aut) ')) for l in out.split('\n')) or '"enc": [' in out
+                inp = {'ssh1': True, 'handshake': hs, 'raw_hex': raw.hex(), 'args': mode_args, 'how': how}
+                if hs == 'ok1':
+                    if code not in (0, 2, 3) or not has_alg:
+                        fail('complete_audit_bad_status', inp, {'exit': code, 'stdout': out[:300]}, 'a report and status 0/2/3')
+                elif code != 1 or has_alg:
+                    fail('incomplete_audit_looks_clean', inp, {'exit': code, 'algorithm_report': has_alg, 'stdout': out[-300:]}, {'exit': 1, 'algorithm_report': False})
     # (c) policy runs
     d = tempfile.mkdtemp(prefix='verif_c02_')
     try:
